@@ -371,6 +371,7 @@ func runC06(c *Ctx) {
 	c01Layout(c, p)
 	c06SeedFrame(c, p)
 	c06Cert(c, p)
+	c06ParserDecides(c, p, "R7")
 }
 
 // ---- R3 ---------------------------------------------------------------------------
@@ -1270,4 +1271,116 @@ func clearsTopBit64(b *ssa.BinOp) bool {
 		return k.Value.ExactString() == "9223372036854775808"
 	}
 	return false
+}
+
+// c06ParserDecides: once bytes were read from the peer, only the read error or the parser's verdict may end
+// the client handshake. The response is legitimately followed at once by the seed frame and the first data
+// frames, so no fixed bound on what has been buffered is a reason to reject (the parser bounds the search for
+// the mark itself).
+func c06ParserDecides(c *Ctx, p *Prog, rule string) {
+	const key = "transports/obfs4:(*obfs4Conn).clientHandshake"
+	ob := c.Obl(rule, key+"#parser-decides", "after the first read from the peer every failure return of the client handshake carries an error some call reported (the read's, the parser's); no fresh or sentinel error is returned beside the parser")
+	fn := p.Func(key)
+	if fn == nil {
+		ob.Undecide("%s not found", key)
+		return
+	}
+	c.Touch(key)
+	var reads []*ssa.Call
+	allInstrs(fn, func(in ssa.Instruction) {
+		if cl, ok := in.(*ssa.Call); ok && cl.Common().IsInvoke() && cl.Common().Method.Name() == "Read" {
+			reads = append(reads, cl)
+		}
+	})
+	if len(reads) == 0 {
+		ob.Undecide("no network read in %s", key)
+		return
+	}
+	after := map[*ssa.BasicBlock]bool{}
+	for _, r := range reads {
+		for b := range reachableFrom(r.Block(), nil) {
+			after[b] = true
+		}
+	}
+	ei := errResultIndex(fn)
+	if ei < 0 {
+		ob.Undecide("%s has no error result", key)
+		return
+	}
+	var fromCall func(v ssa.Value, seen map[ssa.Value]bool) bool
+	fromCall = func(v ssa.Value, seen map[ssa.Value]bool) bool {
+		v = unspill(v)
+		if seen[v] {
+			return true
+		}
+		seen[v] = true
+		switch x := v.(type) {
+		case *ssa.Const:
+			return x.IsNil()
+		case *ssa.Phi:
+			for _, e := range x.Edges {
+				if !fromCall(e, seen) {
+					return false
+				}
+			}
+			return true
+		case *ssa.Extract:
+			_, isCall := x.Tuple.(*ssa.Call)
+			return isCall
+		case *ssa.Call:
+			id := p.CalleeID(x.Common())
+			if id == "errors.New" || id == "fmt.Errorf" {
+				// a wrapper is as good as what it wraps
+				for _, a := range x.Common().Args {
+					if sl, ok := a.(*ssa.Slice); ok {
+						// variadic: look for an error stored into the backing array
+						if al, ok := sl.X.(*ssa.Alloc); ok {
+							for _, ref := range *al.Referrers() {
+								ia, ok := ref.(*ssa.IndexAddr)
+								if !ok {
+									continue
+								}
+								for _, r2 := range *ia.Referrers() {
+									if st, ok := r2.(*ssa.Store); ok {
+										w := st.Val
+										if mi, ok := w.(*ssa.MakeInterface); ok {
+											w = mi.X
+										}
+										if isErrorType(w.Type()) && !isNilConst(w) && fromCall(w, map[ssa.Value]bool{}) {
+											if _, isC := unspill(w).(*ssa.Const); !isC {
+												return true
+											}
+										}
+									}
+								}
+							}
+						}
+					}
+				}
+				return false
+			}
+			return true
+		case *ssa.MakeInterface, *ssa.ChangeInterface:
+			return false
+		case *ssa.UnOp:
+			return false // a load of a package-level sentinel
+		}
+		return false
+	}
+	n := 0
+	for _, r := range returnsOf(fn) {
+		if !after[r.Block()] || ei >= len(r.Results) {
+			continue
+		}
+		n++
+		if !fromCall(r.Results[ei], map[ssa.Value]bool{}) {
+			ob.At(p.InstrPos(r)).Violate("this return hands back an error no call reported, after data was read from the peer: a response the parser would accept (or still wait for) is rejected here")
+			return
+		}
+	}
+	if n == 0 {
+		ob.Undecide("no return after the read")
+		return
+	}
+	ob.HoldNT("%d returns after the read, all carry nil or a call's error", n)
 }
